@@ -1,0 +1,93 @@
+//go:build verif
+
+package workflow
+
+// Verification-only constructors for the role-tree harness (/verif, property C11).
+// Nothing here is compiled without the build tag "verif".
+
+import (
+	"errors"
+	"strings"
+
+	"github.com/AliceO2Group/Control/common/verifhook"
+	"github.com/AliceO2Group/Control/core/repos"
+	"github.com/AliceO2Group/Control/core/task"
+	"github.com/AliceO2Group/Control/core/task/sm"
+	"gopkg.in/yaml.v3"
+)
+
+// VerifUnmarshalRole unmarshals a role tree from a workflow template document exactly as
+// the loadSubworkflow closure of Load does (new root aggregator, parent set before and
+// after unmarshalling), WITHOUT template processing: include roles stay unresolved.
+func VerifUnmarshalRole(yamlDoc []byte, parent Updatable) (Role, error) {
+	root, err := verifRTUnmarshalRoot(yamlDoc, parent)
+	if err != nil {
+		return nil, err
+	}
+	return root, nil
+}
+
+func verifRTUnmarshalRoot(yamlDoc []byte, parent Updatable) (root *aggregatorRole, err error) {
+	root = new(aggregatorRole)
+	root.parent = parent
+	err = yaml.Unmarshal(yamlDoc, root)
+	if err != nil {
+		return nil, err
+	}
+	if parent != nil {
+		root.setParent(parent)
+	}
+	return
+}
+
+// VerifRTLoad does what Load does with the repository manager and the task manager left
+// out: the root document and every subworkflow named by an `include:` entry are taken from
+// memory (subworkflows: template name -> document), then the real ProcessTemplates runs over
+// the tree (include resolution, pruning of disabled roles, re-parenting).
+func VerifRTLoad(yamlDoc []byte, subworkflows map[string][]byte, parent Updatable) (Role, error) {
+	_, repo, err := repos.NewRepo("/home/user/git/ControlWorkflows", "", "/var/lib/o2/aliecs/repos")
+	if err != nil {
+		return nil, err
+	}
+	var loadSubworkflow LoadSubworkflowFunc = func(workflowPathExpr string, parent Updatable) (root *aggregatorRole, workflowRepo repos.IRepo, err error) {
+		// <repo>/workflows/<name>@<revision>
+		name := workflowPathExpr
+		if i := strings.LastIndex(name, "/"); i >= 0 {
+			name = name[i+1:]
+		}
+		if i := strings.Index(name, "@"); i >= 0 {
+			name = name[:i]
+		}
+		doc, ok := subworkflows[name]
+		if !ok {
+			return nil, nil, errors.New("verif: unknown subworkflow " + workflowPathExpr)
+		}
+		root, err = verifRTUnmarshalRoot(doc, parent)
+		return root, &repo, err
+	}
+	root, err := verifRTUnmarshalRoot(yamlDoc, parent)
+	if err != nil {
+		return nil, err
+	}
+	err = root.ProcessTemplates(&repo, loadSubworkflow, make(map[string]string))
+	if err != nil {
+		return nil, err
+	}
+	return root, nil
+}
+
+// VerifRTParent is the real ParentAdapter with a gate point in front of each delivery, so
+// that a harness can hold an update between "root role read its state" and "adapter got it".
+type VerifRTParent struct {
+	*ParentAdapter
+}
+
+func (p *VerifRTParent) updateState(s sm.State) {
+	verifhook.Point("role.enter", "node", "", "kind", "state", "v", int(s))
+	p.ParentAdapter.updateState(s)
+}
+
+func (p *VerifRTParent) updateStatus(s task.Status) {
+	verifhook.Point("role.enter", "node", "", "kind", "status", "v", int(s))
+	p.ParentAdapter.updateStatus(s)
+}
